@@ -199,6 +199,16 @@ def run(tier):
         res = progs.deep_programs(check, wp, family, core.seed(), 60 if tier == "quick" else 600)
         classify(check, res, None)
         check.cov["deep_programs_%s" % family] = len(res)
+    # every mix of the forms of if / elseif / else nested in each other (an else binds to the nearest if), of loops, of try and of
+    # switch: accepted, with the prescribed tree (SyntaxGen's self-nesting mode with a family as the focus, exhaustive)
+    for family in ("7", "5"):
+        for fam_name, w in (("if", 5 if tier == "quick" else 6), ("loop", 2), ("try", 3), ("switch", 3)):
+            tf, bf = progs.family_nesting(check, family, fam_name, w)
+            res = progs.run_programs(check, wp, family, bf, tf, core.seed(), ["none"], progs.VERS[family][:1])
+            for m, t, r in res:
+                m["i"] += 8000000 + 100000 * len(fam_name)
+            classify(check, res, None)
+            check.cov["family_nesting_%s_%s" % (fam_name, family)] = len(res)
     # a sequence of two valid statements is accepted and is the two statements
     for family in ("7", "5"):
         for a, b, ver, what, detail in progs.statement_pairs(check, wp, family, core.seed(), 20000 if tier == "quick" else 300000):
